@@ -142,8 +142,10 @@ func VerifyYouVersionState(prev, curr *types.Header) (err error) {
 
 	currentRound := curr.Number.Uint64()
 
-	// 1. an upgrade
-	if prev.NextSwitchOn == currentRound {
+	// 1. an upgrade. Only a proposal that collected the threshold switches: with a zero
+	// minimum waiting period the switch round can coincide with the end of the voting
+	// window, where a proposal without quorum fails (2.1) instead.
+	if prev.NextSwitchOn == currentRound && prev.NextApprovals >= prevProto.UpgradeThreshold {
 		switch {
 		case prev.NextVersion != curr.CurrVersion:
 			err = errors.New("version not upgrade when demands")
